@@ -31,6 +31,23 @@ def build_wheel(tmp):
     return whl[0]
 
 
+def build_sdist_wheel(tmp):
+    """the other route of the statement: an sdist built from the tree, then a wheel built FROM THAT SDIST (what `pip install <sdist>` does)"""
+    src = os.path.join(tmp, 'src2')
+    shutil.copytree(common.REPO, src, ignore=shutil.ignore_patterns('.git', '__pycache__', 'tests', 'docs', '*.egg-info', 'build'))
+    dist = os.path.join(tmp, 'sdist'); os.makedirs(dist)
+    env = dict(os.environ, PIP_NO_INDEX='1')
+    p = subprocess.run([common.PY, 'setup.py', '-q', 'sdist', '-d', dist], capture_output=True, text=True, timeout=900, env=env, cwd=src)
+    sd = glob.glob(os.path.join(dist, '*.tar.gz')) + glob.glob(os.path.join(dist, '*.zip'))
+    shutil.rmtree(src, ignore_errors=True)
+    if p.returncode != 0 or not sd: return None, 'sdist build failed: ' + (p.stdout + p.stderr)[-600:]
+    out = os.path.join(tmp, 'whl2'); os.makedirs(out)
+    p = subprocess.run([common.PY, '-m', 'pip', 'wheel', '--no-deps', '--no-build-isolation', '-q', '-w', out, sd[0]], capture_output=True, text=True, timeout=900, env=env, cwd=tmp)
+    whl = glob.glob(os.path.join(out, '*.whl'))
+    if p.returncode != 0 or not whl: return None, 'a wheel cannot be built from the sdist (pip install <sdist> fails): ' + (p.stdout + p.stderr)[-600:]
+    return whl[0], ''
+
+
 WORKER = r'''
 import sys, os, json, hashlib
 inst = sys.argv[1]
@@ -109,6 +126,17 @@ def run(ctx):
         model_set = set(p for p in shipped if not p.startswith('examples/') and p != 'setup.py')
         only_wheel = sorted(actual - model_set); only_model = sorted(model_set - actual)
         ctx.extra['wheel_files'] = len(actual)
+        # ... and through an sdist: it must be installable and give the same files
+        whl2, why = build_sdist_wheel(tmp)
+        ctx.case(('sdist-route',))
+        if whl2 is None:
+            ctx.violation(dict(kind='sdist-not-installable', detail=why, how='python setup.py sdist; pip wheel --no-deps --no-build-isolation <the sdist>  (in a scratch copy of the tree)'))
+        else:
+            names2 = set(n for n in zipfile.ZipFile(whl2).namelist() if '.dist-info/' not in n)
+            if names2 != names:
+                ctx.violation(dict(kind='sdist-differs-from-wheel', only_in_wheel_from_tree=sorted(names - names2)[:20], only_in_wheel_from_sdist=sorted(names2 - names)[:20],
+                                   how='wheel built from the tree vs wheel built from the sdist of the tree: the two distributions must install the same files'))
+            os.unlink(whl2)
         ctx.obligation('translation validation: name list of the built wheel = shipped set of the packaging model (%d files)' % len(actual), not only_wheel and not only_model,
                        'only in wheel: %r; only in model: %r' % (only_wheel[:5], only_model[:5]))
         # behaviour of the installed copy
